@@ -170,6 +170,9 @@ Unjudged(r, ep, j) ==
                                                     cross == "thr_unit" \in DOMAIN r /\ se # {} /\ \A e \in se : "unit" \in DOMAIN e /\ e.unit # r.thr_unit IN
                                                 v # SNull /\ StopClassX(v, r.thr, cross) = "band")
     \/ (r.ctrl > 0 /\ \E idx \in 1..Len(Tr.ctrls[r.ctrl]) : "any" \in RuleAllowed(Tr.ctrls[r.ctrl][idx], X, ep, j, r.dt))
+    \* the instant within rounding distance of the time at which the load function steps: which side of the step the recorded
+    \* time falls on depends on the unit the time axis is written in (0.05625 s is 0.056249999999999994 s when counted in hours)
+    \/ (~("load_logged" \in DOMAIN Tr /\ Tr.load_logged) /\ RSign(Tr.load.cs) # 0 /\ RLe(RAbs(RSub(X.t, Tr.load.ts)), RMul(Band, RMax(RAbs(Tr.load.ts), r.dt))))
     \* the duty cycle within rounding distance of the dead-zone boundary: the documented torque law jumps there when the
     \* motor is moving and i0 = 0 (T -> -Tmax w/w0 as D -> 0+, but exactly 0 at D = 0), so which side a rounding error
     \* of 1e-16 in a proposal falls on is a discrete decision
